@@ -240,6 +240,20 @@ func (m *Manager) CreateAllocation( // nolint: cyclop
 	// that expires before the allocation is registered would find nothing to delete and
 	// leave behind an allocation that never expires.
 	m.lock.Lock()
+	if _, taken := m.allocations[fiveTuple.Fingerprint()]; taken {
+		// Another Allocate for this five-tuple (a stream client that reconnected from the same
+		// address) was registered while the relay was being set up. Registering over it would
+		// orphan it: nobody would ever close its relay or stop its timer.
+		m.lock.Unlock()
+		if alloc.relayPacketConn != nil {
+			_ = alloc.relayPacketConn.Close()
+		}
+		if alloc.relayListener != nil {
+			_ = alloc.relayListener.Close()
+		}
+
+		return nil, fmt.Errorf("%w: %v", errDupeFiveTuple, fiveTuple)
+	}
 	alloc.lifetimeTimer = time.AfterFunc(lifetime, func() {
 		m.deleteAllocation(alloc.fiveTuple, alloc)
 	})
